@@ -534,6 +534,15 @@ func c18GenKids(r *core.Rng, kids []*snode, fill int) []*dnode {
 					e.kids = append(e.kids, c18GenKids(r, k.kids, fill)...)
 					d.kids = append(d.kids, e)
 				}
+				if twoKeys && len(d.kids) >= 2 && r.Bool() {
+					// two entries whose key values run together to the same text: (k1, ab) and (k1a, b)
+					for i, kv := range [][2]string{{"k1", "ab"}, {"k1a", "b"}} {
+						e := d.kids[i]
+						e.name = kv[0]
+						e.kid("k").vals = []string{kv[0]}
+						e.kid("k2").vals = []string{kv[1]}
+					}
+				}
 				// make the unique tuples distinct: drop colliding entries' unique leaves
 				for _, u := range k.uniques {
 					seen := map[string]bool{}
